@@ -166,14 +166,24 @@ def make_pool(rng, cplx):
 
     pool = []
 
-    def add(kind, spec, op, lin, fn):
-        pool.append(LeafRec(kind, spec, op, sp_name(op.domain), sp_name(op.range), lin, fn))
+    def add(kind, spec, op, lin=None, fn=None):
+        # the dispatch-visible flags are READ from the live object and sent on the wire
+        lin = bool(op.is_linear)
+        fn = isinstance(op, odl.solvers.Functional)
+        pool.append(LeafRec(kind, '{}{}~{}'.format(int(lin), int(fn), spec), op,
+                            sp_name(op.domain), sp_name(op.range), lin, fn))
 
     for nd, nr in [(3, 3), (2, 3), (3, 2), (2, 2)]:
         rows = [rvals(nd, -2, 2) for _ in range(nr)]
         mat = np.array(rows, dtype=complex if cplx else float)
         add('mat', 'mat~{}~{}~{}'.format(nd, nr, ';'.join(cl(r) for r in rows)),
             odl.MatrixOperator(mat, domain=spaces[nd], range=spaces[nr]), True, False)
+    if cplx:
+        # flagged is_linear=True by the library but only REAL-linear (EnvOK with R = reals)
+        for n in (2, 3):
+            emb = odl.ComplexEmbedding(odl.rn(n))
+            add('repart', 'repart~{}'.format(n), emb * odl.RealPart(spaces[n]))
+            add('impart', 'impart~{}'.format(n), emb * odl.ImagPart(spaces[n]))
     fld = spaces[2].field
     add('scalef', 'scalef~2', odl.ScalingOperator(fld, 2.0), True, False)
     add('powf', 'powf~2', odl.PowerOperator(fld, 2), False, False)
@@ -211,7 +221,35 @@ SOPS = ('s.lmul', 's.rmul', 's.div', 's.add', 's.radd', 's.sub', 's.rsub')
 VOPS = ('v.lmul', 'v.rmul', 'v.add', 'v.radd', 'v.sub', 'v.rsub')
 
 
+def is_real(s):
+    import numbers
+    return isinstance(s, numbers.Real)
+
+
+def exotic(rng, c):
+    """the same real value as another `numbers.Number` type (NumPy scalars, bool, Fraction)"""
+    if isinstance(c, complex):
+        return np.complex128(c) if rng.random() < 0.5 else c
+    r = rng.random()
+    if c in (0, 1) and r < 0.2:
+        return bool(c)
+    if r < 0.4:
+        return np.float64(c)
+    if r < 0.55:
+        return np.float32(c)
+    if r < 0.7 and float(c) == int(c):
+        return np.int64(int(c))
+    if r < 0.85:
+        return Fraction(c)
+    return c
+
+
 def rand_scalar(rng, cplx, div=False):
+    c = rand_scalar0(rng, cplx, div)
+    return exotic(rng, c) if rng.random() < 0.15 else c
+
+
+def rand_scalar0(rng, cplx, div=False):
     if div:
         c = rng.choice([1, -1, 2, -2, 0.5, 4.0, -0.25, 2, 0.5, 0])
         if cplx and rng.random() < 0.3:
@@ -308,7 +346,7 @@ def rpn(ast, ren=None):
     if k in BOPS:
         return rpn(ast[1], ren) + rpn(ast[2], ren) + [k]
     if k in SOPS:
-        return rpn(ast[1], ren) + ['{}~{}'.format(k, cs(ast[2]))]
+        return rpn(ast[1], ren) + ['{}~{}~{}'.format(k, cs(ast[2]), int(is_real(ast[2])))]
     if k in VOPS:
         return rpn(ast[1], ren) + ['{}~{}'.format(k, cl(ast[2]))]
     raise KeyError(k)
@@ -418,6 +456,12 @@ def pybuild(ast, pool, spaces):
 
 class Undefined(Exception):
     pass
+
+
+def div_by_zero(ast):
+    if ast[0] == 's.div' and ast[2] == 0:
+        return True
+    return any(div_by_zero(a) for a in ast[1:3] if isinstance(a, tuple))
 
 
 def ref_eval(ast, pool, spaces, x, track):
@@ -602,6 +646,22 @@ def run_real(case, pool, spaces, pool_ids):
     import odl
     ast, xs = case['ast'], case['x']
     res = {'problems': []}
+    if div_by_zero(ast):
+        # `A / 0` has no table value.  Python zero: ZeroDivisionError; NumPy zero: an operator
+        # with scalar inf is built (1.0 / np.float64(0) is inf with a warning).  Both outside
+        # the property; anything else is reported.
+        res['status'] = 'skip'
+        res['skip'] = 'div-by-zero-scalar'
+        try:
+            with np.errstate(all='ignore'):
+                pybuild(ast, pool, spaces)
+            res['skip'] += '(built)'
+        except ZeroDivisionError:
+            res['skip'] += '(raised)'
+        except Exception as e:  # noqa
+            if pytype(ast, pool) is not None or True:
+                res['skip'] += '(raised {})'.format(type(e).__name__)
+        return res
     try:
         op = pybuild(ast, pool, spaces)
         if not isinstance(op, odl.Operator):
@@ -618,6 +678,7 @@ def run_real(case, pool, spaces, pool_ids):
         # `(f/g) * 0` evaluates (f/g)(0) eagerly; with g(0) = 0 the expression is undefined at
         # every point (the model uses Lean's x/0 = 0): outside the property, skipped
         res['status'] = 'skip'
+        res['skip'] = 'undefined-everywhere'
         return res
     if op is None:
         if ty is not None:
@@ -700,27 +761,34 @@ def run_real(case, pool, spaces, pool_ids):
         # linearity flag
         exp_lin = lin_expected(ast, pool)
         if res['lin'] and not exp_lin:
-            why = linear_numerically(op, spaces, case)
+            why = linear_numerically(op, spaces, case, pool)
             if why:
                 res['problems'].append('is_linear=True but ' + why)
         if exp_lin and not res['lin']:
             res['problems'].append('is_linear=False although the expression is a composition of '
                                    'linear operands (flag lost)')
         if res['lin'] and exp_lin:
-            why = linear_numerically(op, spaces, case)
+            why = linear_numerically(op, spaces, case, pool)
             if why:
                 res['problems'].append('is_linear=True but ' + why)
     return res
 
 
-def linear_numerically(op, spaces, case):
-    """Test op(a*x + y) == a*op(x) + op(y) exactly on a small grid point; returns a reason or None."""
+REAL_LINEAR_ONLY = ('repart', 'impart')
+
+
+def linear_numerically(op, spaces, case, pool):
+    """Test op(a*x + y) == a*op(x) + op(y) exactly on a small grid point; returns a reason or
+    None.  `a` is complex on a complex tree unless the tree contains a leaf that the library
+    flags linear although it is only real-linear (RealPart/ImagPart based): ODL's flag cannot
+    mean more than real-linearity there (the flag of the LEAF is C05/C06's business)."""
     try:
         n = op.domain.size
         cplx = case['cplx']
-        x = op.domain.element([1.0, -2.0, 0.5][:n])
+        kinds = {pool[i].kind for i in used_leaves(case['ast'])}
+        x = op.domain.element([complex(1, 1) if cplx else 1.0, -2.0, 0.5][:n])
         y = op.domain.element([complex(2, 1) if cplx else 2.0, 1.0, -1.0][:n])
-        a = (1j if cplx else -2.0)
+        a = (1j if (cplx and not (kinds & set(REAL_LINEAR_ONLY))) else -2.0)
         lhs = op(a * x + y)
         rhs = a * op(x) + op(y)
         l, r = [exact(v) for v in flat(lhs)], [exact(v) for v in flat(rhs)]
@@ -816,6 +884,14 @@ def level_forms(rng, pool, cplx, inner_ast, ty):
             if k == 's.div' and s == 0:
                 continue
             out.append((k, inner_ast, s))
+    # other `numbers.Number` types (and a Python complex with zero imaginary part, which is
+    # NOT a numbers.Real), division by a Python / NumPy zero
+    extra = [np.float64(2.0), Fraction(1, 2), True, np.float32(-0.5), np.int64(2)] + \
+        ([complex(2, 0), np.complex128(1j)] if cplx else [])
+    for s in extra:
+        for k in ('s.lmul', 's.rmul', 's.div', 's.add', 's.rsub'):
+            out.append((k, inner_ast, s))
+    out += [('s.div', inner_ast, 0), ('s.div', inner_ast, np.float64(0.0))]
     for k in VOPS:
         n = nd if k == 'v.rmul' else nr
         out.append((k, inner_ast, rand_vec(rng, n, cplx)))
@@ -1017,7 +1093,7 @@ def process(ctx, cases, pool, spaces, pool_ids, count=True):
             ctx.disagree(desc, 'extracted dispatch (buildT over Gen/AlgebraDispatch.lean)',
                          'differs from the hand-written build: ' + ans[:200], stream='translator')
         if real['status'] == 'skip':
-            ctx.hit('skip/undefined-everywhere')
+            ctx.hit('skip/' + real.get('skip', '?'))
             continue
         if mstatus not in ('ok', 'raise'):
             ctx.disagree(desc, real['status'], ans)
@@ -1164,8 +1240,9 @@ def _run(ctx):
     quick = ctx.quick
     n_rand = 1200 if quick else 8000
     depth = 6 if quick else 9
-    kinds_q = ('pow2', 'mat', 'l2sq', 'linf', 'inner', 'constf')
-    kinds_t = ('pow2', 'pow3', 'mat', 'scale', 'ident', 'l2sq', 'linf', 'inner', 'constf', 'zerof')
+    kinds_q = ('pow2', 'mat', 'l2sq', 'linf', 'inner', 'constf', 'repart')
+    kinds_t = ('pow2', 'pow3', 'mat', 'scale', 'ident', 'l2sq', 'linf', 'inner', 'constf', 'zerof',
+               'repart', 'impart')
     for cplx in (False, True):
         seed = ctx.rng.getrandbits(32)
         stream(ctx, cplx, seed, lambda pool: random_cases(ctx, pool, cplx, n_rand, depth))
@@ -1188,7 +1265,8 @@ def search(ctx, broken):
     saved = ctx.tier
     ctx.tier = 'thorough'
     try:
-        kinds = ('pow2', 'pow3', 'mat', 'scale', 'l2sq', 'linf', 'inner', 'constf', 'zerof')
+        kinds = ('pow2', 'pow3', 'mat', 'scale', 'l2sq', 'linf', 'inner', 'constf', 'zerof',
+                 'repart', 'impart')
         for cplx in (False, True):
             seed = ctx.rng.getrandbits(32)
             steps = [lambda pool: targeted_cases(ctx, pool, cplx),
@@ -1208,7 +1286,8 @@ def replay(ctx, case):
     import ast as pyast
     cplx = case['field'] == 'complex'
     pool, spaces, pool_ids = setup(ctx, cplx, case['pool_seed'])
-    c = {'ast': pyast.literal_eval(case['ast']), 'cplx': cplx, 'stream': 'replay',
+    c = {'ast': eval(case['ast'], {'np': np, 'Fraction': Fraction, '__builtins__': {}}),
+         'cplx': cplx, 'stream': 'replay',
          'x': [complex(v) if 'j' in v else float(v) for v in case['x']]}
     c['forms'] = forms_of(c['ast'])
     with np.errstate(all='ignore'):
